@@ -291,8 +291,9 @@ func runC18(c C18Case, ev *Evid) (fs []Finding) {
 
 func TestC18(t *testing.T) {
 	RunProperty(t, Property[C18Case]{
-		ID: "C18",
-		Rule: "rapid-generated files (values needing 17 significant digits, +-Inf, NaN-valued points, empty slots, rings whose first-written slot is not the oldest) x window x archive selection x header on/off x sort on/off, view and view-raw run at a controlled clock. Oracle: header block fields vs. the layout (names, numbers, durations evaluated independently, offsets); view records == the fetched windows slot by slot in archive-then-time order with bit-exact values parsed back from the text; view-raw records == the physical slots decoded by the independent parser, filtered by t<=until and (from==0 or t>from), in physical order or stably time-sorted; every non-NaN view record inside the requested range appears in view-raw. Non-trivial: >=1 non-NaN record and a value needing >=17 significant digits or an infinity. Distinct = hash of the case.",
+		NoteCases:   true,
+		ID:          "C18",
+		Rule:        "rapid-generated files (values needing 17 significant digits, +-Inf, NaN-valued points, empty slots, rings whose first-written slot is not the oldest) x window x archive selection x header on/off x sort on/off, view and view-raw run at a controlled clock. Oracle: header block fields vs. the layout (names, numbers, durations evaluated independently, offsets); view records == the fetched windows slot by slot in archive-then-time order with bit-exact values parsed back from the text; view-raw records == the physical slots decoded by the independent parser, filtered by t<=until and (from==0 or t>from), in physical order or stably time-sorted; every non-NaN view record inside the requested range appears in view-raw. Non-trivial: >=1 non-NaN record and a value needing >=17 significant digits or an infinity. Distinct = hash of the case.",
 		Assumptions: []string{"Z6: view-raw with from == until is not asserted"},
 		Gen: func(t *rapid.T) C18Case {
 			l := genCLILayout(t)
